@@ -141,3 +141,12 @@ def classify(case, mo):
     if not case["map"]:
         tags.append("empty")
     return tags
+
+
+def warm_up():
+    """compile ordered_map_valid_partial_old for the signatures the cases use, outside the per-case alarm"""
+    for c in (mk([1, 2, 3], [0, -1, 2], -1, 2), mk([], [-1], -1, 1)):
+        try:
+            impl(c)
+        except Exception:   # noqa
+            pass
